@@ -21,6 +21,7 @@ from fractions import Fraction
 
 import numpy as np
 
+from . import common
 from .common import Case, VERIF, fx, ints, intm, rat, rats, ratm, parse_rats
 
 FILES = ["quantecon/markov/ddp.py", "quantecon/markov/utilities.py"]
@@ -112,9 +113,10 @@ def ctor_and_bellman(job):
         try:
             d = build(job)
         except Exception as e:  # the kind is the observation
-            return [err_str(e), "-"]
-        out = [canon_ddp(d), "-"]
+            return [err_str(e), "-", "-", "-", "-"]
+        out = [canon_ddp(d), "-", "-", "-", "-"]
         if job.get("v") is not None:
+            from quantecon.markov import backward_induction
             try:
                 n = d.num_states
                 Tv = np.empty(n)
@@ -123,6 +125,22 @@ def ctor_and_bellman(job):
                 out[1] = "Tv=%s|sigma=%s" % (exts(Tv), ints(sg))
             except Exception as e:
                 out[1] = err_str(e)
+            if job.get("sigma") is not None:
+                try:
+                    Rs, Qs = d.RQ_sigma(np.array(job["sigma"], dtype=int))
+                    out[2] = "R=%s|Q=%s" % (exts(Rs), extm(dense(Qs)))
+                except Exception as e:
+                    out[2] = err_str(e)
+            try:
+                e2 = d.to_product_form() if d._sa_pair else d.to_sa_pair_form(sparse=False)
+                out[3] = canon_ddp(e2)
+            except Exception as e:
+                out[3] = err_str(e)
+            try:
+                vsb, sgb = backward_induction(d, 2, np.array(job["v"], dtype=float))
+                out[4] = "vs=%s|sigmas=%s" % (extm(vsb), intm(sgb))
+            except Exception as e:
+                out[4] = err_str(e)
         return out
 
 
@@ -156,10 +174,10 @@ class Inst:
                 t[s][a] = (r, q)
         return t
 
-    def job(self, v=None):
+    def job(self, v=None, sigma=None):
         f = lambda r: -math.inf if r is NINF else float(r)
         j = {"form": self.form, "n": self.n, "beta": float(self.beta), "sparse": self.sparse,
-             "v": None if v is None else [float(x) for x in v]}
+             "v": None if v is None else [float(x) for x in v], "sigma": sigma}
         if self.form == "prod":
             j["R"] = [[f(r) for r in row] for row in self.R]
             j["Q"] = [[[float(x) for x in q] for q in qs] for qs in self.Q]
@@ -316,7 +334,7 @@ def run(ctx):
             return build(inst.job())
 
     # ---------------------------------------------------------------- valid instances
-    n_inst = ctx.n(70, 700)
+    n_inst = ctx.n(200, 5000)
     bc_jobs = []      # (inst, v, in-process ctor string, in-process bellman string)
     for ii in range(n_inst):
         inst = gen_valid()
@@ -411,8 +429,8 @@ def run(ctx):
                             ctx.count("argmax:last-feasible-action")
                         if a == min(ev[s]) and len(ev[s]) >= 2:
                             ctx.count("argmax:first-feasible-action")
-        if ii % 3 == 0:
-            v = vs_[0]
+        if ii % 3 == 0 and inst.scale == 1:
+            v = gen_v(inst, "small")
             bc_jobs.append((inst, v, cstr, None))
 
         # ---- policies: RQ_sigma, controlled_mc, T_sigma, evaluate_policy
@@ -468,6 +486,11 @@ def run(ctx):
                 cases.append(Case("C09 evalpol %s %s" % (base, sline), out, tag="evalpol"))
             elif all(r is not NINF for r in Rw):
                 vsig = d.evaluate_policy(sig)
+                if not np.all(np.isfinite(vsig)):
+                    ctx.spec_fail("evaluate_policy", "evaluate_policy(%s) returned non-finite values" % (list(sigma),),
+                                  inst.replay(sigma=list(sigma), got=[float(x) for x in vsig]))
+                    cases.append(Case("C09 evalpol %s %s" % (base, sline), "nonfinite", nontrivial=nt, tag="evalpol"))
+                    continue
                 A = [[(1 if i == j else 0) - inst.beta * Qw[i][j] for j in range(inst.n)] for i in range(inst.n)]
                 xs = solve_exact(A, Rw)
                 sc = max([1] + [abs(x) for x in xs])
@@ -624,6 +647,16 @@ def run(ctx):
                 pairs.append((s, a, r, dyadic_dist(rng, n)))
         return pairs
 
+    # corpus: fixed regression inputs (the replays of findings F4 / F5 and relatives) run first
+    cpath = os.path.join(ctx.corpus_dir, "c09_seed.json")
+    if os.path.exists(cpath):
+        for ent in json.load(open(cpath)):
+            pairs = [(int(s_), int(a_), NINF if r_ == "ninf" else Fraction(r_), [Fraction(x) for x in q_])
+                     for s_, a_, r_, q_ in ent["pairs"]]
+            for sparse in (False, True):
+                inst = Inst("sa", ent["n"], Fraction(ent["beta"]), pairs=pairs, sparse=sparse)
+                mal.append((inst, "corpus", bool(ent["reject"]), set(ent["empty"])))
+
     nmax = ctx.n(4, 5)
     for n in range(1, nmax + 1):
         for k in range(1, n + 1):
@@ -644,7 +677,7 @@ def run(ctx):
                     if any(0 < s < n - 1 for s in empty):
                         where.append("middle")
                     mal.append((inst, "empty:" + "+".join(where) + ":" + order, True, set(empty)))
-    for _ in range(ctx.n(30, 150)):
+    for _ in range(ctx.n(50, 300)):
         n = rng.randint(1, 6)
         m = rng.randint(1, 5)
         bad = set(rng.sample(range(n), rng.randint(1, min(2, n))))
@@ -687,6 +720,8 @@ def run(ctx):
     for inst, desc, must_reject, empty in mal:
         ctx.count("malformed:" + desc)
         res = ctor_and_bellman(inst.job())[0]
+        if desc == "corpus" and not must_reject and res.startswith("ERR"):
+            ctx.spec_fail("ctor_valid", "constructor rejected an admissible corpus instance: %s" % res[:60], inst.replay(got=res))
         if must_reject and not res.startswith("ERR:ValueError"):
             ctx.spec_fail("ctor_rejects", "inadmissible instance (%s) was not rejected with ValueError: %s" % (desc, res[:60]),
                           inst.replay(got=res))
@@ -707,10 +742,13 @@ def run(ctx):
         bc_jobs.append((inst, None, res, empty))
 
     # ---------------------------------------------------------------- bounds-checked child process
-    jobs = [inst.job(v) for inst, v, _, _ in bc_jobs]
+    def first_policy(inst):
+        t = inst.table()
+        return [min(t[s_]) for s_ in range(inst.n)]
+    jobs = [inst.job(v, None if v is None else first_policy(inst)) for inst, v, _, _ in bc_jobs]
     env = dict(os.environ)
     env["NUMBA_BOUNDSCHECK"] = "1"
-    env["NUMBA_CACHE_DIR"] = os.path.join(VERIF, ".cache", "numba_c09_boundscheck")
+    env["NUMBA_CACHE_DIR"] = common.numba_cache_dir("c09_boundscheck")  # keyed by the content digest of /repo
     os.makedirs(env["NUMBA_CACHE_DIR"], exist_ok=True)
     p = subprocess.run([sys.executable, "-m", "harness.c09", "child"], input=json.dumps(jobs), cwd=VERIF, env=env,
                        stdout=subprocess.PIPE, stderr=subprocess.PIPE, text=True, timeout=600)
@@ -718,12 +756,13 @@ def run(ctx):
         sys.stdout.write("bounds-checking child failed: %s\n" % p.stderr[-2000:])
         raise SystemExit(2)
     outs = json.loads(p.stdout)
-    for (inst, v, res, empty), (cres, bres) in zip(bc_jobs, outs):
+    for (inst, v, res, empty), (cres, bres, rqres, convres, bwres) in zip(bc_jobs, outs):
         ctx.count("boundscheck:runs")
-        if "IndexError" in cres or "IndexError" in bres:
+        allres = [cres, bres, rqres, convres, bwres]
+        if any("IndexError" in r_ for r_ in allres):
             ctx.count("boundscheck:IndexError")
-            ctx.spec_fail("ctor_oob", "out-of-bounds read under NUMBA_BOUNDSCHECK=1: %s %s" % (cres[:80], bres[:80]),
-                          inst.replay(boundscheck=[cres, bres]))
+            ctx.spec_fail("ctor_oob", "out-of-bounds read under NUMBA_BOUNDSCHECK=1: %s" % " ".join(r_[:60] for r_ in allres),
+                          inst.replay(boundscheck=allres))
         elif cres != res:
             same_kind = cres.startswith("ERR:ValueError") and res.startswith("ERR:ValueError")
             if same_kind and empty:
@@ -731,9 +770,20 @@ def run(ctx):
             else:
                 ctx.spec_fail("ctor_boundscheck_differs", "constructor behaves differently under bounds checking: %s vs %s"
                               % (cres[:80], res[:80]), inst.replay(boundscheck=[cres, bres]))
-        if v is not None and bres != "-":
-            # same bellman line as in-process (already compared with the model there); compare with the model again
-            cases.append(Case("C09 bellman %s v=%s" % (inst.line(), rats(v)), bres, nontrivial=False, tag="bellman-boundscheck"))
+        if v is not None:
+            # the bounds-checked run must agree with the model as well
+            base = inst.line()
+            if bres != "-":
+                cases.append(Case("C09 bellman %s v=%s" % (base, rats(v)), bres, nontrivial=False, tag="boundscheck-ops"))
+            if rqres != "-":
+                cases.append(Case("C09 rqsigma %s sigma=%s" % (base, ints(first_policy(inst))), rqres, nontrivial=False,
+                                  tag="boundscheck-ops"))
+            if convres != "-":
+                cases.append(Case("C09 %s %s" % ("toprod" if inst.form == "sa" else "tosa", base), convres, nontrivial=False,
+                                  tag="boundscheck-ops"))
+            if bwres != "-":
+                cases.append(Case("C09 backward %s T=2 vterm=%s" % (base, rats(v)), bwres, nontrivial=False,
+                                  tag="boundscheck-ops"))
 
     ctx.assumptions.append("evaluate_policy: LAPACK/SuperLU solve compared with the exact solution inside 1e-9*max(1,|v|) "
                            "(rounding of the linear solve is not modelled)")
